@@ -1,4 +1,5 @@
 import CollectionsC.Model.Chain
+import CollectionsC.Proofs.MemT
 /-! Helper lemmas about the shared `Chain` state: the canonical chain `ofList t xs` (the unique state
 with content `xs` that satisfies the invariant), pointer arithmetic, the walking loops. -/
 namespace CC
@@ -62,10 +63,8 @@ end Chain
 
 /-! ## the ledger seen from one allocator triple -/
 
-/-- blocks currently owned through the triple `t` -/
-def Mem.liveT (m : Mem) : Triple → Nat
-  | .conf => m.live
-  | .libc => m.liveLibc
+/-! `Mem.liveT m t` — blocks currently owned through the triple `t` —, `Mem.allocT_nil` and
+`Mem.freeT_sched` come from `Proofs/MemT.lean` (shared with the other containers). -/
 
 /-- the counters of the configured allocator / of the C library allocator -/
 def Mem.confSide (m : Mem) : List Bool × Nat × Nat × Nat × Nat := (m.sched, m.live, m.nalloc, m.nfree, m.nrefused)
@@ -112,10 +111,6 @@ theorem Mem.freeT_live (m : Mem) (t : Triple) (h : 0 < m.liveT t) :
   · simp only [Mem.liveT] at h; simp only [Mem.freeT, Mem.liveT]; split
     · omega
     · exact ⟨rfl, rfl⟩
-theorem Mem.allocT_nil (m : Mem) (t : Triple) (h : m.sched = []) : (m.allocT t).1 = true ∧ (m.allocT t).2.sched = [] := by
-  cases t
-  · exact Mem.alloc_nil m h
-  · exact ⟨rfl, h⟩
 
 theorem Mem.freeN_live (t : Triple) : ∀ (n : Nat) (m : Mem), n ≤ m.liveT t →
     (Mem.freeN t n m).liveT t = m.liveT t - n ∧ (Mem.freeN t n m).fault = m.fault ∧ Mem.Frame t m (Mem.freeN t n m)
